@@ -180,6 +180,13 @@ def stat_str(st):
                                st.st_atime_ns, st.st_mtime_ns)
 
 
+def _close2():
+    try:
+        os.close(2)
+    except OSError:
+        pass
+
+
 def run_case(exe, idx, case, errmode=None):
     d = os.path.join(ck.tmp, 'c%d%s' % (idx, errmode or ''))
     os.mkdir(d)
@@ -287,7 +294,7 @@ def run_case(exe, idx, case, errmode=None):
         elif errmode == 'closed':        # no descriptor 2 at all (EBADF)
             r = subprocess.run([exe] + opts + [name], cwd=d, env=env,
                                stdin=subprocess.DEVNULL, stdout=subprocess.PIPE,
-                               preexec_fn=lambda: os.close(2), timeout=60)
+                               preexec_fn=_close2, timeout=60)
             r.stderr = b''
         else:
             r = subprocess.run([exe] + opts + [name], cwd=d, env=env,
